@@ -22,6 +22,15 @@ type Convergen interface {
 	SkipStructMemberArg(*Src) *Dst
 	// :skip /^Meta\.(Tags|Inner)$/
 	SkipRegexpStructMembers(Src) Dst
+	// the same-named source is a GETTER that returns the destination's type
+	// :getter
+	// :skip Info.Note
+	// :literal Info.Tags.A "lit"
+	GetterMember(*SrcG) *DstG
+	// :style arg
+	// :getter
+	// :skip Info.Inner.N
+	GetterMemberArg(*SrcG) *DstG
 	// a :skip written before the :case:off that governs it
 	// :style arg
 	// :skip id
